@@ -19,12 +19,14 @@ enum Ev {
     Success(DVal, Vec<u8>),
 }
 
-fn run_acc<const N: usize>(t: &DTy, chunks: &[Vec<u8>], mode: u8) -> Result<Vec<(Ev, Vec<u8>)>, String> {
+fn run_acc<const N: usize>(t: &DTy, chunks: &[Vec<u8>], mode: u8) -> Result<Vec<(Ev, Vec<u8>, usize)>, String> {
     let mut acc: CobsAccumulator<N> = CobsAccumulator::new();
     let mut out = Vec::new();
     // which entry point serves call number k on this ONE accumulator: 0 = always feed, 1 = always feed_ref,
     // 2 / 3 = alternating (starting with feed_ref / feed), 4 = a fixed pseudo-random pattern
     let mut calls = 0u64;
+    // absolute stream offset at which the current chunk starts
+    let mut base = 0usize;
     for c in chunks {
         let mut window: &[u8] = &c[..];
         let mut iters = 0usize;
@@ -51,7 +53,9 @@ fn run_acc<const N: usize>(t: &DTy, chunks: &[Vec<u8>], mode: u8) -> Result<Vec<
                 FeedResult::DeserError(w) => (Ev::DeserError(w.to_vec()), Some(w)),
                 FeedResult::Success { data, remaining } => (Ev::Success(data.0, remaining.to_vec()), Some(remaining)),
             };
-            out.push((ev, acc.verif_buffered().to_vec()));
+            // how far into the STREAM this call got: everything before the remainder it hands back
+            let abs_end = base + c.len() - next.map(|w| w.len()).unwrap_or(0);
+            out.push((ev, acc.verif_buffered().to_vec(), abs_end));
             match next {
                 None => break,
                 Some(w) => {
@@ -63,11 +67,12 @@ fn run_acc<const N: usize>(t: &DTy, chunks: &[Vec<u8>], mode: u8) -> Result<Vec<
                 }
             }
         }
+        base += c.len();
     }
     Ok(out)
 }
 
-fn run_n(n: usize, t: &DTy, chunks: &[Vec<u8>], by_ref: u8) -> Option<Result<Vec<(Ev, Vec<u8>)>, String>> {
+fn run_n(n: usize, t: &DTy, chunks: &[Vec<u8>], by_ref: u8) -> Option<Result<Vec<(Ev, Vec<u8>, usize)>, String>> {
     Some(match n {
         1 => run_acc::<1>(t, chunks, by_ref),
         2 => run_acc::<2>(t, chunks, by_ref),
@@ -130,7 +135,7 @@ pub fn eval(ctx: &mut Ctx, op: &str, args: &[Sexp]) -> Option<String> {
                     Err(e) => return Some(e),
                 },
             };
-            let tally = |f: fn(&Ev) -> bool| evs.iter().filter(|(e, _)| f(e)).count();
+            let tally = |f: fn(&Ev) -> bool| evs.iter().filter(|(e, _, _)| f(e)).count();
             let mut s = format!(
                 "accrep events={} C={} O={} E={} S={}",
                 evs.len(),
@@ -139,7 +144,7 @@ pub fn eval(ctx: &mut Ctx, op: &str, args: &[Sexp]) -> Option<String> {
                 tally(|e| matches!(e, Ev::DeserError(_))),
                 tally(|e| matches!(e, Ev::Success(..)))
             );
-            for (e, b) in &evs[evs.len().saturating_sub(6)..] {
+            for (e, b, _) in &evs[evs.len().saturating_sub(6)..] {
                 s.push_str(" ; ");
                 s.push_str(&ev_str(e, b));
             }
@@ -194,7 +199,7 @@ pub fn eval(ctx: &mut Ctx, op: &str, args: &[Sexp]) -> Option<String> {
     let mut segs: Vec<&[u8]> = stream.split(|b| *b == 0).collect();
     let tail = segs.pop().unwrap_or(&[]);
     let fits = segs.iter().all(|s| s.len() + 1 <= n) && tail.len() <= n;
-    let frame_results: Vec<&Ev> = evs.iter().map(|(e, _)| e).filter(|e| !matches!(e, Ev::Consumed)).collect();
+    let frame_results: Vec<&Ev> = evs.iter().map(|(e, _, _)| e).filter(|e| !matches!(e, Ev::Consumed)).collect();
     if fits {
         if frame_results.len() != segs.len() {
             ctx.oracle_fail(format!("{} results for {} zero bytes although every segment fits", frame_results.len(), segs.len()));
@@ -213,38 +218,48 @@ pub fn eval(ctx: &mut Ctx, op: &str, args: &[Sexp]) -> Option<String> {
                 }
             }
         }
-        if evs.last().map(|(_, b)| b.as_slice()).unwrap_or(&[]) != tail && !evs.is_empty() {
+        if evs.last().map(|(_, b, _)| b.as_slice()).unwrap_or(&[]) != tail && !evs.is_empty() {
             ctx.oracle_fail("buffer after the run is not the unterminated tail".into());
         }
     }
-    if stream.last() == Some(&0) && evs.last().map(|(_, b)| !b.is_empty()).unwrap_or(false) {
+    if stream.last() == Some(&0) && evs.last().map(|(_, b, _)| !b.is_empty()).unwrap_or(false) {
         ctx.oracle_fail("accumulator not back in its initial state after a zero byte".into());
     }
-    // an over-long first segment must be reported as OverFull no later than the call consuming its sentinel
-    if let Some(first) = segs.first() {
-        if first.len() + 1 > n && !matches!(frame_results.first(), Some(Ev::OverFull(_))) {
-            ctx.oracle_fail("over-long segment not reported as OverFull before its sentinel was passed".into());
-        }
-    }
-    // a fitting frame that follows a zero byte is delivered intact (last segment)
-    if segs.len() >= 2 {
-        let last = segs[segs.len() - 1];
-        if last.len() + 1 <= n && stream.last() == Some(&0) {
-            let mut f = last.to_vec();
+    // per segment, whatever the accumulator does in between (C09): identified by WHERE in the stream a call ended.
+    //  * an over-long segment: an OverFull result from a call that ended inside it or at its sentinel
+    //    ("before that segment's sentinel is passed");
+    //  * a fitting segment (it follows a zero byte, or starts the stream): a result from the call that consumed its
+    //    sentinel, equal to decoding the segment in isolation ("delivered intact").
+    // What else is reported while an over-long segment goes by (its tail used to be treated as a frame of its own)
+    // is not constrained.
+    let mut pos = 0usize;
+    for seg in segs.iter() {
+        let (start, end) = (pos, pos + seg.len() + 1);
+        pos = end;
+        if seg.len() + 1 > n {
+            let reported = evs.iter().any(|(e, _, at)| matches!(e, Ev::OverFull(_)) && *at > start && *at <= end);
+            if !reported {
+                ctx.oracle_fail(format!("over-long segment (stream bytes {}..{}) not reported as OverFull before its sentinel was passed", start, end));
+            }
+        } else {
+            let mut f = seg.to_vec();
             f.push(0);
             let want = isolated(&t, &f);
-            let ok = match (frame_results.last(), &want) {
-                (Some(Ev::Success(v, _)), Some(w)) => v == w,
-                (Some(Ev::DeserError(_)), None) => true,
-                _ => false,
-            };
-            if !ok {
-                ctx.oracle_fail("frame following a zero byte was not delivered intact (resync)".into());
+            let delivered = evs.iter().any(|(e, _, at)| {
+                *at == end
+                    && match (e, &want) {
+                        (Ev::Success(v, _), Some(w)) => v == w,
+                        (Ev::DeserError(_), None) => true,
+                        _ => false,
+                    }
+            });
+            if !delivered {
+                ctx.oracle_fail(format!("the frame {} that follows a zero byte (or starts the stream) was not delivered intact (isolated decoding: {:?})", hex(&f), want.map(|v| v.to_string())));
             }
         }
     }
     let mut s = String::from("acc");
-    for (e, b) in &evs {
+    for (e, b, _) in &evs {
         match e {
             Ev::Consumed => s.push_str(" ; C"),
             Ev::OverFull(r) => s.push_str(&format!(" ; O rem={}", hex(r))),
